@@ -1,5 +1,6 @@
 import PqV.Lemmas.Page
 import PqV.Lemmas.KHybrid
+import PqV.Lemmas.Delta
 /-!
 # C03 — valid flat Parquet files from any writer decode to exactly what they encode
 
@@ -62,6 +63,17 @@ theorem kernel_hybrid_any_runs (w : Nat) (hw1 : 1 ≤ w) (hw : w ≤ 24) (rs : L
         = .ok (o', loc') ∧ o'.items = (rs.flatMap Run.values).take n := by
   obtain ⟨o', loc', h1, h2⟩ := readHybrid_eq_spec w hw1 hw rs pre post n hok hpre hpost hn
   exact ⟨o', loc', h1, by rw [h2, decodeHybrid_encodeRuns w n rs post (fun r hr => (hok r hr).1) hn]⟩
+
+/-- **DELTA_BINARY_PACKED, any shape**: for every block size / miniblock count the format allows
+    (whole miniblocks of a multiple of 8 values), every widening of the miniblock bit widths (0..64),
+    every list of values of the column's width — any length, any number of blocks, partly filled last
+    block and miniblock — the specification decoder returns the values and stops exactly behind them. -/
+theorem delta_any_shape (bits : Nat) (hb : 1 ≤ bits) (sh : DeltaShape) (hs : ShapeOk sh) (vs : List Int)
+    (hr : ∀ v ∈ vs, inRange bits v) (tail : List Nat) :
+    decodeDelta bits (encodeDelta bits sh vs ++ tail) = some (vs, tail) :=
+  decodeDelta_encodeDelta bits hb sh hs vs hr tail
+
+example : ShapeOk { blockSize := 128, mpb := 4, extraWidth := 3 } := ⟨by decide, by decide, by decide, by decide⟩
 
 /-! ### non-vacuity -/
 example : ∀ r ∈ [Run.rle 3 5, Run.bp [1, 2, 3, 4, 5, 6, 7, 0], Run.rle 0 1], r.wf 3 = true := by decide
